@@ -447,6 +447,81 @@ def _seq_runs(ctx):
     return fails
 
 
+def _use_runs(ctx):
+    """the value of an enumerated key is the one the run USES: whole runs of the real simulator on examples/ex1 at the first and
+    the last documented value (and the ones between). InitSelection 1..4 (ALLE / field id / polygon / soil id): the measurement
+    file holds one row per identifier with different Nmin, the first output day must show the row the value selects;
+    ETpot 1..4, CO2method 1..3, PTF 0..4: different methods, the daily output of every value differs from every other."""
+    h2g = ctx.repo_bin("src/hermes2go", "hermes2go")
+    base = "project=ex1 WeatherFolder=historical soilId=075 fcode=109_120 plotNr=10001 Altitude=73 Latitude=52.6732 poligonID=29872 EndDate=12311981"
+    rows = [("ALLE", 10), ("SOYSM1", 20), ("10001", 30), ("075", 40)]      # InitSelection 1, 2, 3, 4 for this line (poly_ex1.txt: 10001 001 SOYSM1)
+
+    def prepare(name, conf_edit=None):
+        ex = os.path.join(ctx.work, "use_" + name)
+        shutil.copytree(os.path.join(REPO, "examples"), ex)
+        ef = os.path.join(ex, "project", "ex1", "endit_ex1.txt")
+        hdr = open(ef).read().split("\n")[0]
+        with open(ef, "w") as fh:
+            fh.write(hdr + "\n" + "".join("%-9s 10011980 %04d %04d %04d 1 0.700 0.660 0.666 0001   0001    0001     0.800 0.800  0.200  \n" % (k, v, v * 8 // 10, v // 2)
+                                          for k, v in rows) + "end\n")
+        if conf_edit:
+            cf = os.path.join(ex, "project", "ex1", "config.yml")
+            txt = open(cf).read()
+            open(cf, "w").write(re.sub(conf_edit[0], conf_edit[1], txt, flags=re.M))
+        return ex
+
+    def run(ex, lines):
+        bf = os.path.join(ex, "use_batch.txt")
+        with open(bf, "w") as fh:
+            fh.write("".join(l + "\n" for l in lines))
+        p = subprocess.run([h2g, "-module", "batch", "-concurrent", "4", "-batch", bf], cwd=ex, stdout=subprocess.PIPE, stderr=subprocess.STDOUT, text=True, timeout=600)
+        return p.stdout[-300:]
+
+    def daily(ex, folder):
+        rd = os.path.join(ex, "RESULT", folder)
+        vs = [f for f in (os.listdir(rd) if os.path.isdir(rd) else []) if f.startswith("V")]
+        return open(os.path.join(rd, vs[0]), errors="replace").read() if vs else None
+
+    def first_nmin(content):
+        for l in (content or "").split("\n"):
+            if re.match(r"\d\d\.\d\d\.\d{4} ", l):
+                w = l.split()
+                return int(w[10]) if len(w) > 10 and w[10].isdigit() else None
+        return None
+
+    enums = {"ETpot": [1, 2, 3, 4], "CO2method": [1, 2, 3], "PTF": [0, 1, 2, 3, 4]}
+    ex1 = prepare("line")
+    lines = ["%s resultfolder=RESULT/init%d InitSelection=%d" % (base, v, v) for v in (1, 2, 3, 4)]
+    lines += ["%s resultfolder=RESULT/%s%d %s=%d" % (base, k, v, k, v) for k, vs in enums.items() for v in vs]
+    ex2 = prepare("file", (r"^InitSelection:.*$", "InitSelection: 4"))
+    with ThreadPoolExecutor(max_workers=2) as exr:
+        t1, t2 = exr.map(lambda a: run(*a), [(ex1, lines), (ex2, [base + " resultfolder=RESULT/init4file"])])
+    fails = []
+    for v, (key, nm) in zip((1, 2, 3, 4), rows):
+        got = first_nmin(daily(ex1, "init%d" % v))
+        if got != round(nm / 3):
+            fails.append(Fail(key="use InitSelection=%d line" % v, what="InitSelection=%d on the batch line: the measurement row %r (Nmin 0-3 dm %d kg/ha, i.e. %d per layer) must initialise "
+                              "the profile; first output day shows %s in the top layer" % (v, key, nm, round(nm / 3), got), line=lines[v - 1], tail=t1))
+    got = first_nmin(daily(ex2, "init4file"))
+    if got != round(rows[3][1] / 3):
+        fails.append(Fail(key="use InitSelection=4 file", what="InitSelection: 4 in config.yml: the soil-id row (Nmin %d per layer) must initialise the profile; first output day shows %s"
+                          % (round(rows[3][1] / 3), got), tail=t2))
+    for k, vs in enums.items():
+        outs = {v: daily(ex1, "%s%d" % (k, v)) for v in vs}
+        for v in vs:
+            if outs[v] is None:
+                fails.append(Fail(key="use %s=%d" % (k, v), what="%s=%d on the batch line: the run produced no daily output" % (k, v), tail=t1))
+        for a in vs:
+            for b in vs:
+                if a < b and outs[a] is not None and outs[a] == outs[b]:
+                    fails.append(Fail(key="use %s=%d" % (k, b if b == vs[-1] else a), what="%s=%d and %s=%d on the batch line give byte-identical daily output on examples/ex1: "
+                                      "one of the two documented values is not the one the run uses" % (k, a, k, b)))
+    ctx.extra["use_runs"] = len(lines) + 1
+    ctx.extra["use_limits"] = ("enumerated keys observed in use: InitSelection 1..4 (exact row), ETpot 1..4, CO2method 1..3, PTF 0..4 (pairwise different output); "
+                               "not observable on examples/ex1: GroundWaterFrom, PotMineralisation, WeatherFileFormat, Dateformat, ETpot=5 (need other input files)")
+    return fails
+
+
 def oracle(ctx, search):
     rc, out, err = _run(ctx)
     fails = []
@@ -479,7 +554,7 @@ def oracle(ctx, search):
                            "'invalid crop parameter name: Zq%d' (separators %s, lead %r, trail %r)" % (l["text"], l["error"], l["i"], l["seps"], l["lead"], l["trail"]),
                            replay="write the line to f; hermes2go -module batch -logoutput -batch f"))
     ctx.extra["oracle_tokeniser_lines"] = len(tok["lines"])
-    fails = tf[:10] + _seq_runs(ctx) + _whole_runs(ctx) + fails
+    fails = tf[:10] + _use_runs(ctx) + _seq_runs(ctx) + _whole_runs(ctx) + fails
     return fails[:50]
 
 
